@@ -76,7 +76,7 @@ def handle (args : List String) : String :=
   | ["dqw", d, h] =>
     match ofHex h with
     | some v =>
-      match rewriteDq v with
+      match rewriteDq (d != "0") v with
       | some nv => "sgl " ++ d ++ " " ++ toHex nv
       | none => "same"
     | none => "bad-op"
